@@ -58,19 +58,49 @@ def translate(ctx):
 
 
 # ---------------------------------------------------------------- abstraction: ast -> pyexpr s-expression
-LIT_NAMES = {"Literal", "Lit"}
-LIT_MODULES = {"typing", "t", "te"}
 HEADER = ("from typing import Literal, List, Optional\nfrom typing import Literal as Lit\nimport typing\nimport typing as t\n"
           "import typing_extensions as te\n")
+# the same spellings bound to other objects: what a name denotes is decided by the module's imports, not by its text
+HEADER_ALT = ("from typing import List as Literal, Optional as Lit, Optional\nfrom typing_extensions import Literal as List\n"
+              "import typing_extensions as typing\nimport collections as t\nimport typing as te\n")
+HEADERS = [HEADER, HEADER_ALT]
 FUTURE = "from __future__ import annotations\n"
+LITERAL_PATHS = {"typing.Literal", "typing_extensions.Literal"}
 
 
-def is_literal(value) -> bool:
-    """Does the subscripted value denote typing.Literal / typing_extensions.Literal under HEADER's imports?"""
+def header_env(header: str) -> dict:
+    """name -> canonical path bound by the import statements of a module header (what Module.resolve answers for an alias)."""
+    env = {}
+    for st in ast.parse(header).body:
+        if isinstance(st, ast.Import):
+            for al in st.names:
+                if al.asname:
+                    env[al.asname] = al.name
+                else:
+                    env[al.name.split(".")[0]] = al.name.split(".")[0]
+        elif isinstance(st, ast.ImportFrom):
+            for al in st.names:
+                env[al.asname or al.name] = f"{st.module}.{al.name}"
+    return env
+
+
+ENVS = [header_env(h) for h in HEADERS]
+
+
+def canonical(value, env):
+    """ExprName / ExprAttribute.canonical_path of a pure Name/Attribute chain (None for anything else).
+    A name the module does not bind resolves to itself (NameResolutionError is swallowed)."""
     if isinstance(value, ast.Name):
-        return value.id in LIT_NAMES
-    return (isinstance(value, ast.Attribute) and value.attr == "Literal" and isinstance(value.value, ast.Name)
-            and value.value.id in LIT_MODULES)
+        return env.get(value.id, value.id)
+    if isinstance(value, ast.Attribute):
+        c = canonical(value.value, env)
+        return None if c is None else c + "." + value.attr
+    return None
+
+
+def is_literal(value, env=None) -> bool:
+    """Does the subscripted value denote typing.Literal / typing_extensions.Literal under the module's imports?"""
+    return canonical(value, ENVS[0] if env is None else env) in LITERAL_PATHS
 
 
 def try_parse(text: str):
@@ -94,8 +124,10 @@ def lambda_params(a: ast.arguments):
     return po, pk, (a.vararg.arg if a.vararg else None), ko, (a.kwarg.arg if a.kwarg else None)
 
 
-def A(n):
-    """ast node -> model term."""
+def A(n, env=None):
+    """ast node -> model term (env: the module's import bindings, for the Literal test)."""
+    if env is not None and env is not ENVS[0]:
+        return _A_env(n, env)
     t = type(n)
     if t is ast.Name:
         return [1, n.id]
@@ -124,7 +156,7 @@ def A(n):
     if t is ast.keyword:
         return [11, opt(n.arg), A(n.value)]
     if t is ast.Subscript:
-        return [12, A(n.value), 1 if is_literal(n.value) else 0, A(n.slice)]
+        return [12, A(n.value), 1 if is_literal(n.value, _CUR_ENV[0]) else 0, A(n.slice)]
     if t is ast.Slice:
         return [13, opt(n.lower and A(n.lower)), opt(n.upper and A(n.upper)), opt(n.step and A(n.step))]
     if t is ast.Tuple:
@@ -168,11 +200,23 @@ def A(n):
     raise ValueError(f"no abstraction for {t.__name__}")
 
 
+_CUR_ENV = [ENVS[0]]
+
+
+def _A_env(n, env):
+    old = _CUR_ENV[0]
+    _CUR_ENV[0] = env
+    try:
+        return A(n)
+    finally:
+        _CUR_ENV[0] = old
+
+
 # ---------------------------------------------------------------- the string-annotation rule, written against ast (harness side)
-def py_subst(n, mode, injoin=False, infmt=False):
+def py_subst(n, mode, injoin=False, infmt=False, env=None):
     """mode: None = strings are data; False = strings are code; True = code, but under a Literal[...] slice.
     Returns a new tree in which the str constants Griffe's rule selects are replaced by their parsed content."""
-    rec = lambda x: py_subst(x, mode, injoin, infmt)
+    rec = lambda x: py_subst(x, mode, injoin, infmt, env)
     t = type(n)
     if t is ast.Constant:
         if isinstance(n.value, str) and not (injoin and not infmt) and mode is False:
@@ -183,16 +227,16 @@ def py_subst(n, mode, injoin=False, infmt=False):
     if t is ast.Subscript:
         m2 = mode
         if mode is not None:
-            m2 = mode or is_literal(n.value)
-        return ast.Subscript(value=n.value, slice=py_subst(n.slice, m2, injoin, infmt), ctx=n.ctx)
+            m2 = mode or is_literal(n.value, env)
+        return ast.Subscript(value=n.value, slice=py_subst(n.slice, m2, injoin, infmt, env), ctx=n.ctx)
     if t is ast.Lambda:
         return ast.Lambda(args=n.args, body=rec(n.body))
     if t is ast.JoinedStr:
         # literal text of an f-string is never an annotation (Griffe does take the literals of an f-string nested in a
         # replacement field for code: that corner is part of finding F3 and flagged by the model's classifier)
-        return ast.JoinedStr(values=[v if isinstance(v, ast.Constant) else py_subst(v, mode, True, infmt) for v in n.values])
+        return ast.JoinedStr(values=[v if isinstance(v, ast.Constant) else py_subst(v, mode, True, infmt, env) for v in n.values])
     if t is ast.FormattedValue:
-        return ast.FormattedValue(value=py_subst(n.value, mode, injoin, True), conversion=n.conversion, format_spec=n.format_spec)
+        return ast.FormattedValue(value=py_subst(n.value, mode, injoin, True, env), conversion=n.conversion, format_spec=n.format_spec)
     if not isinstance(n, ast.AST):
         return n
     out = copy.copy(n)
@@ -471,7 +515,7 @@ class Gen:
         if r < 0.55:
             return nm(self.rng.choice(NAMES))
         if r < 0.7:
-            return const(self.rng.choice([0, 1, 7, 42, 1.5, 2j, 10 ** 20, 1e400]))
+            return const(self.rng.choice([0, 1, 7, 42, 1.5, 2j, 10 ** 20, 1e400, 0.0, 1.0, 0j, 2, 2.0, 1e20, 1j]))
         if r < 0.8:
             return const(self.rng.choice([None, True, False, Ellipsis, b"by"]))
         return self.string()
@@ -662,7 +706,8 @@ def representatives():
     """One or more small instances of every node type / operator, used as children in the exhaustive depth-2 product."""
     a, b, c = nm("a"), nm("b"), nm("c")
     reps = [("Name", a), ("int", const(1)), ("float", const(1.5)), ("complex", const(2j)), ("str", const("s")), ("None", const(None)),
-            ("Ellipsis", const(Ellipsis)), ("bytes", const(b"b")), ("inf", const(1e400)), ("codestr", const("int")), ("codestr_or", const("a | b")),
+            ("Ellipsis", const(Ellipsis)), ("bytes", const(b"b")), ("inf", const(1e400)),
+            ("True", const(True)), ("float1", const(1.0)), ("False", const(False)), ("int0", const(0)), ("float0", const(0.0)), ("complex0", const(0j)), ("codestr", const("int")), ("codestr_or", const("a | b")),
             ("codestr_tuple", const("int, str")),
             ("Attribute", ast.Attribute(value=a, attr="b", ctx=ast.Load())),
             ("Attribute2", ast.Attribute(value=ast.Attribute(value=a, attr="b", ctx=ast.Load()), attr="c", ctx=ast.Load())),
@@ -796,23 +841,35 @@ def valid_source(n):
         return None
 
 
+def module_text(future: bool, header: int, body: str) -> str:
+    return (FUTURE if future else "") + HEADERS[header] + body
+
+
+def stmt_text(c, k=None) -> str:
+    return POSITIONS[POS_INDEX[c["pos"]]][1].format(k=c["k"] if k is None else k, e=c["src"])
+
+
 def build_modules(cases):
-    """cases: list of dicts with src, pos, future. Yields (module source, [case...]) batches with uniform future flag."""
+    """cases: list of dicts with src, pos, future (and optionally header). Yields (module source, [case...]) batches with
+    uniform future flag and header."""
     for future in (False, True):
-        group = [c for c in cases if c["future"] == future]
-        for i in range(0, len(group), BATCH):
-            chunk = group[i:i + BATCH]
-            parts = [FUTURE if future else "", HEADER]
-            for k, c in enumerate(chunk):
-                c["k"] = k
-                parts.append(POSITIONS[POS_INDEX[c["pos"]]][1].format(k=k, e=c["src"]))
-            yield "".join(parts), chunk
+        for header in range(len(HEADERS)):
+            group = [c for c in cases if c["future"] == future and c.get("header", 0) == header]
+            for i in range(0, len(group), BATCH):
+                chunk = group[i:i + BATCH]
+                parts = []
+                for k, c in enumerate(chunk):
+                    c["k"] = k
+                    parts.append(stmt_text(c))
+                yield module_text(future, header, "".join(parts)), chunk
 
 
 def prepare(chunk, src):
     """Attach to each case its source node E, the expected tree E' and the model query."""
     tree = ast.parse(src)
-    nhead = len(ast.parse((FUTURE if chunk[0]["future"] else "") + HEADER).body)
+    header = chunk[0].get("header", 0)
+    env = ENVS[header]
+    nhead = len(ast.parse(module_text(chunk[0]["future"], header, "")).body)
     stmts = tree.body[nhead:]
     assert len(stmts) == len(chunk), (len(stmts), len(chunk))
     for c, st in zip(chunk, stmts):
@@ -820,8 +877,8 @@ def prepare(chunk, src):
         c["E"] = node_at(st, c["pos"])
         c["parse"] = bool(is_ann and not c["future"])
         c["top"] = top
-        c["Eexp"] = py_subst(c["E"], False if c["parse"] else None)
-        c["query"] = ["run", top, 1 if c["parse"] else 0, A(c["E"])]
+        c["Eexp"] = py_subst(c["E"], False if c["parse"] else None, env=env)
+        c["query"] = ["run", top, 1 if c["parse"] else 0, A(c["E"], env)]
 
 
 def pick_family(gaps):
@@ -871,36 +928,193 @@ def direct_eval(expr, Eexp, top=4):
     return (not detail), detail
 
 
+STATE = {"visited": []}
+
+
+def run_module(ctx, src, chunk, stream):
+    """Visit one generated module and check every case stored in it (three-way)."""
+    try:
+        prepare(chunk, src)
+    except Exception as e:  # noqa: BLE001
+        ctx.tie_failure("harness", "cannot prepare batch", repr(e), {"source": src[:2000]})
+        return
+    STATE["visited"].append(src)
+    try:
+        mod = visit_module(src)
+        objs = []
+        for c in chunk:
+            objs.append(impl_at(mod, c["pos"], c["k"]))
+    except Exception:  # noqa: BLE001
+        # the visitor itself failed: evaluate case by case so the culprit becomes a failing input
+        objs = []
+        for c in chunk:
+            one = module_text(c["future"], c.get("header", 0), stmt_text(c))
+            try:
+                objs.append(impl_at(visit_module(one), c["pos"], c["k"]))
+            except Exception as e2:  # noqa: BLE001
+                objs.append(e2)
+    outs = ctx.model([c["query"] for c in chunk])
+    for c, obj, out in zip(chunk, objs, outs):
+        check_case(ctx, c, obj, out, stream)
+
+
 def run_cases(ctx, cases, stream):
     """Full three-way check of a list of {src,pos,future,label} cases."""
     cases = [c for c in cases if c.get("src") is not None]
     for src, chunk in build_modules(cases):
-        try:
-            prepare(chunk, src)
-        except Exception as e:  # noqa: BLE001
-            ctx.tie_failure("harness", "cannot prepare batch", repr(e), {"source": src[:2000]})
-            continue
-        try:
-            mod = visit_module(src)
-            objs = []
-            for c in chunk:
-                objs.append(impl_at(mod, c["pos"], c["k"]))
-        except Exception as e:  # noqa: BLE001
-            # the visitor itself failed: evaluate case by case so the culprit becomes a failing input
-            objs = []
-            for c in chunk:
-                one = (FUTURE if c["future"] else "") + HEADER + POSITIONS[POS_INDEX[c["pos"]]][1].format(k=c["k"], e=c["src"])
-                try:
-                    objs.append(impl_at(visit_module(one), c["pos"], c["k"]))
-                except Exception as e2:  # noqa: BLE001
-                    objs.append(e2)
-        outs = ctx.model([c["query"] for c in chunk])
-        for c, obj, out in zip(chunk, objs, outs):
-            check_case(ctx, c, obj, out, stream)
+        run_module(ctx, src, chunk, stream)
+
+
+def run_sequences(ctx, sequences, stream):
+    """History streams: each sequence is a list of modules (lists of cases) visited one after the other in this process.
+    What is stored for an expression must not depend on what was built before: every case is checked exactly like a
+    case visited alone (against the model, which is a function of the expression only, and against CPython), and carries
+    the sources of the modules visited before it in its sequence, so that a failure can be replayed with its history."""
+    for seq in sequences:
+        prior = []
+        for cases in seq:
+            cases = [c for c in cases if c.get("src") is not None]
+            for src, chunk in build_modules(cases):
+                for c in chunk:
+                    c["history"] = list(prior)
+                ctx.observe("history_length", len(prior))
+                run_module(ctx, src, chunk, stream)
+                prior.append(src)
 
 
 def case_json(c):
-    return {"position": c["pos"], "future_annotations": c["future"], "expression": c["src"]}
+    cj = {"position": c["pos"], "future_annotations": c["future"], "expression": c["src"]}
+    if c.get("header", 0):
+        cj["header"] = c["header"]
+    if c.get("history"):
+        cj["history"] = c["history"]
+    return cj
+
+
+# ---------------------------------------------------------------- isolation: is a failure a function of the input alone?
+def case_from_json(cj, label="replay"):
+    c = {"src": cj["expression"], "pos": cj["position"], "future": cj["future_annotations"], "label": label}
+    if cj.get("header"):
+        c["header"] = cj["header"]
+    if cj.get("history"):
+        c["history"] = list(cj["history"])
+    return c
+
+
+def eval_with_history(cj):
+    """(in a fresh interpreter) visit the history modules in order, then the case alone; direct evaluation only."""
+    for h in cj.get("history", []):
+        try:
+            visit_module(h)
+        except Exception:  # noqa: BLE001
+            pass
+    c = case_from_json(cj)
+    for src, chunk in build_modules([c]):
+        prepare(chunk, src)
+        try:
+            obj = impl_at(visit_module(src), c["pos"], c["k"])
+        except Exception as e:  # noqa: BLE001
+            return False, {"visit raised": type(e).__name__ + ": " + str(e)[:200]}
+        return direct_eval(obj, c["Eexp"], c["top"])
+    return True, {}
+
+
+def isolated(cj, history=None):
+    """Run eval_with_history in a fresh interpreter. Returns True (holds), False (fails) or None (could not run)."""
+    import subprocess
+    import sys
+    q = dict(cj)
+    if history is not None:
+        q["history"] = history
+    try:
+        p = subprocess.run([sys.executable, "-m", "harness.props.c03", "--isolated"], input=json.dumps(q), capture_output=True,
+                           text=True, timeout=300)
+        return bool(json.loads(p.stdout.strip().splitlines()[-1])["ok"])
+    except Exception:  # noqa: BLE001
+        return None
+
+
+def statements_of(src):
+    """(prefix lines that are not generated statements, list of statement texts) of a generated module."""
+    tree = ast.parse(src)
+    lines = src.splitlines(keepends=True)
+    head, stmts = [], []
+    for st in tree.body:
+        first = min([st.lineno] + [d.lineno for d in getattr(st, "decorator_list", [])])
+        text = "".join(lines[first - 1:st.end_lineno])
+        (head if isinstance(st, (ast.Import, ast.ImportFrom)) else stmts).append(text)
+    return "".join(head), stmts
+
+
+def find_history(cj, visited):
+    """The failure did not reproduce from the input alone. Find a short list of earlier modules after which it does:
+    shortest failing suffix of what this process visited (doubling), then a single module of it, then a few statements."""
+    n, k, hist = len(visited), 1, None
+    while True:
+        cand = visited[max(0, n - k):]
+        if isolated(cj, cand) is False:
+            hist = cand
+            break
+        if k >= n:
+            return None
+        k *= 2
+    for m in reversed(hist[-16:]):
+        if len(hist) > 1 and isolated(cj, [m]) is False:
+            hist = [m]
+            break
+    if len(hist) == 1:
+        head, stmts = statements_of(hist[0])
+        while len(stmts) > 1:
+            half = len(stmts) // 2
+            for part in (stmts[:half], stmts[half:]):
+                if isolated(cj, [head + "".join(part)]) is False:
+                    stmts = part
+                    break
+            else:
+                break
+        hist = [head + "".join(stmts)]
+    return hist
+
+
+def finalise_failures(ctx):
+    """Epilogue of explore/search: make the reported failing input self-contained. Failures are examined smallest first
+    in a fresh interpreter: the first one that fails from its input alone is the replay. If none does, what Griffe stores
+    depends on what it built before: the smallest such case is reported together with a short history (earlier modules
+    of this run) after which it fails in a fresh interpreter too; the other failures are listed in its detail."""
+    fails = ctx.prop_failures
+    if not fails:
+        return
+    fails.sort(key=lambda f: len(json.dumps(f["case"], default=str)))
+    upto = {id(f): f["case"].pop("_visited_upto", len(STATE["visited"])) for f in fails}
+    best, dependent = None, []
+    for f in fails[:12]:
+        alone = isolated(f["case"])
+        ctx.observe("isolation", {True: "holds-alone", False: "fails-alone", None: "not-run"}[alone])
+        if alone is True:
+            f["case"]["history_dependent"] = True
+            dependent.append(f)
+            continue
+        best = f
+        break
+    if best is None and dependent:
+        for f in dependent[:2]:
+            h = find_history(f["case"], STATE["visited"][:upto[id(f)]])
+            if h is not None:
+                f["case"]["history"] = h
+                best = f
+                break
+        best = best or dependent[0]
+    if best is None:
+        return
+    others = [g for g in fails if g is not best]
+    if others:
+        best["detail"] = dict(best["detail"], other_failures=[{"case": {k: v for k, v in g["case"].items() if k != "history"},
+                                                               "detail": g["detail"]} for g in others[:8]])
+    if best["case"].get("history_dependent"):
+        # keep only the self-contained report: the others fail only after a history this run did not isolate for them
+        ctx.prop_failures[:] = [best]
+    else:
+        ctx.prop_failures[:] = [best] + [g for g in others if not g["case"].get("history_dependent")]
 
 
 def check_case(ctx, c, obj, out, stream):
@@ -968,6 +1182,8 @@ def check_case(ctx, c, obj, out, stream):
     if only_names:   # a lost or spurious name is explained only by the families that drop / invent sub-expressions
         fam = 10 if 10 in gaps else 3 if 3 in gaps else None
     ctx.observe("outcome", "known:" + FAMILY_NAME[fam] if fam else "UNEXPLAINED")
+    if not fam:
+        cj["_visited_upto"] = len(STATE["visited"])
     ctx.property_failure(cj, detail, finding=FAMILY[fam] if fam else None)
 
 
@@ -1007,8 +1223,8 @@ def corpus_cases():
     return out
 
 
-def mk(n, pos, future, label=""):
-    return {"src": valid_source(n), "pos": pos, "future": future, "label": label}
+def mk(n, pos, future, label="", header=0):
+    return {"src": valid_source(n), "pos": pos, "future": future, "label": label, "header": header}
 
 
 def exhaustive_cases(ctx, full: bool):
@@ -1071,7 +1287,7 @@ def string_cases(ctx, count):
     for i in range(count):
         n = shape(rng.randint(0, 3))
         pos = rng.choice(["annassign", "param_annotation", "returns", "annassign", "returns", "assign", "param_default", "decorator", "base"])
-        out.append(mk(n, pos, rng.random() < 0.3, "strings"))
+        out.append(mk(n, pos, rng.random() < 0.3, "strings", header=1 if rng.random() < 0.2 else 0))
     return out
 
 
@@ -1086,9 +1302,105 @@ def random_cases(ctx, count, safe, maxd, strings="data"):
     return out
 
 
+# constants that compare equal (and hash alike) but are different objects with different spellings: anything that keys
+# on the value instead of the node (a memo table, a set, a dict of defaults) confuses them
+EQ_CLASSES = [[False, 0, 0.0, 0j], [True, 1, 1.0], [2, 2.0], [10 ** 20, 1e20]]
+POS_NAMES = [p[0] for p in POSITIONS]
+
+
+def equal_constant_cases():
+    """Every ordered pair of equal-but-distinct constants inside ONE expression, in several shapes and positions."""
+    L = ast.Load()
+    shapes = [lambda x, y: ast.List(elts=[x, y], ctx=L),
+              lambda x, y: ast.Call(func=nm("f"), args=[x], keywords=[ast.keyword(arg="k", value=y)]),
+              lambda x, y: ast.Dict(keys=[x], values=[y]),
+              lambda x, y: ast.Subscript(value=nm("Literal"), slice=ast.Tuple(elts=[x, y], ctx=L), ctx=L),
+              lambda x, y: lam(pk=[("p", x)], body=y),
+              lambda x, y: ast.BinOp(left=x, op=ast.Add(), right=ast.Tuple(elts=[y, x], ctx=L))]
+    out, i = [], 0
+    for cls in EQ_CLASSES:
+        for x, y in itertools.permutations(cls, 2):
+            for sh in shapes:
+                out.append(mk(sh(const(x), const(y)), POS_NAMES[i % 7], bool(i % 3 == 0), "equal-constants"))
+                i += 1
+    return out
+
+
+def history_sequences(ctx, count):
+    """Sequences of small modules visited one after the other. The modules of a sequence share something a cache could
+    key on while requiring different output: equal constants of different types, the same string constant as annotation
+    (code) and as value (data), the same spelling bound by different imports, the same annotation with and without
+    postponed evaluation. Each sequence is also run in reverse order."""
+    rng = ctx.rng
+    L = ast.Load()
+
+    def wrap(x):
+        r = rng.random()
+        if r < 0.4:
+            return x
+        if r < 0.6:
+            return ast.List(elts=[x, nm("a")], ctx=L)
+        if r < 0.75:
+            return ast.Call(func=nm("f"), args=[x], keywords=[])
+        if r < 0.9:
+            return ast.Subscript(value=nm(rng.choice(["List", "Literal", "Optional"])), slice=x, ctx=L)
+        return ast.Dict(keys=[const("k")], values=[x])
+
+    def module_of(nodes, future=None, header=0, positions=None):
+        f = (rng.random() < 0.3) if future is None else future
+        return [mk(copy.deepcopy(n), rng.choice(positions or POS_NAMES), f, "history", header) for n in nodes]
+
+    def theme_constants():
+        cls = rng.choice(EQ_CLASSES)
+        vals = list(cls)
+        rng.shuffle(vals)
+        cut = rng.randint(1, len(vals) - 1)
+        return [module_of([wrap(const(v)) for v in part for _ in range(2)]) for part in (vals[:cut], vals[cut:])]
+
+    def theme_string_roles():
+        strs = rng.sample(CODE_STRINGS, 3)
+        nodes = [wrap(const(x)) for x in strs for _ in range(2)]
+        return [module_of(nodes, False, 0, ["annassign", "param_annotation", "returns"]),
+                module_of(nodes, False, 0, ["assign", "param_default", "decorator", "base"])]
+
+    def theme_headers():
+        lits = [nm("Literal"), nm("Lit"), nm("List"), ast.Attribute(value=nm("typing"), attr="Literal", ctx=L),
+                ast.Attribute(value=nm("t"), attr="Literal", ctx=L), ast.Attribute(value=nm("te"), attr="Literal", ctx=L)]
+        nodes = [ast.Subscript(value=copy.deepcopy(v), slice=const(rng.choice(CODE_STRINGS[:8])), ctx=L) for v in lits]
+        pos = ["annassign", "param_annotation", "returns"]
+        return [module_of(nodes, False, 0, pos), module_of(nodes, False, 1, pos)]
+
+    def theme_future():
+        nodes = [wrap(const(x)) for x in rng.sample(CODE_STRINGS, 4)]
+        pos = ["annassign", "param_annotation", "returns"]
+        return [module_of(nodes, False, 0, pos), module_of(nodes, True, 0, pos)]
+
+    def theme_random():
+        g = Gen(rng, True, "code")
+        return [module_of([g.expr(rng.randint(1, 3), 4) for _ in range(5)]) for _ in range(rng.choice([2, 3]))]
+
+    themes = [theme_constants, theme_constants, theme_string_roles, theme_headers, theme_future, theme_random]
+    out = []
+    for i in range(count):
+        seq = themes[i % len(themes)]()
+        out.append(seq)
+        out.append([copy.deepcopy(m) for m in reversed(seq)])
+    return out
+
+
 def explore(ctx):
+    STATE.update(visited=[])
+    try:
+        explore_streams(ctx)
+    finally:
+        finalise_failures(ctx)
+
+
+def explore_streams(ctx):
     replay_witnesses(ctx)
     run_cases(ctx, corpus_cases(), "corpus")
+    run_cases(ctx, equal_constant_cases(), "equal-constants")
+    run_sequences(ctx, history_sequences(ctx, ctx.budget(36, 360)), "history")
     ex = exhaustive_cases(ctx, full=not ctx.quick)
     ctx.exhaustive = not ctx.quick
     run_cases(ctx, ex, "exhaustive-depth2")
@@ -1254,40 +1566,59 @@ def py_gaps_top(E, top) -> set:
 def search(ctx):
     """A tie broke (or the model could not be built): implementation vs CPython only, classified by the python mirror
     of the gap predicates. The first failing input outside every known family becomes the replay."""
-    streams = [("exhaustive-depth2", exhaustive_cases(ctx, full=False)),
-               ("string-annotations", string_cases(ctx, 1500)),
-               ("random-safe", random_cases(ctx, 3000, True, 6, "data")),
-               ("random-safe-codestrings", random_cases(ctx, 1000, True, 5, "code")),
-               ("random-wild", random_cases(ctx, 1500, False, 5, "data"))]
-    for stream, cases in streams:
-        cases = [c for c in cases if c.get("src") is not None]
-        for src, chunk in build_modules(cases):
-            prepare(chunk, src)
+    STATE.update(visited=[])
+    try:
+        search_streams(ctx)
+    finally:
+        finalise_failures(ctx)
+
+
+def search_streams(ctx):
+    def modules():
+        for c in (equal_constant_cases(), exhaustive_cases(ctx, full=False)):
+            yield from build_modules([x for x in c if x.get("src") is not None])
+        for seq in history_sequences(ctx, 60):
+            prior = []
+            for cases in seq:
+                for src, chunk in build_modules([x for x in cases if x.get("src") is not None]):
+                    for c in chunk:
+                        c["history"] = list(prior)
+                    yield src, chunk
+                    prior.append(src)
+        for c in (string_cases(ctx, 1500), random_cases(ctx, 3000, True, 6, "data"), random_cases(ctx, 1000, True, 5, "code"),
+                  random_cases(ctx, 1500, False, 5, "data")):
+            yield from build_modules([x for x in c if x.get("src") is not None])
+
+    for src, chunk in modules():
+        prepare(chunk, src)
+        STATE["visited"].append(src)
+        try:
+            mod = visit_module(src)
+        except Exception:  # noqa: BLE001
+            mod = None
+        for c in chunk:
+            ctx.evaluations += 1
+            cj = case_json(c)
+            cj["_visited_upto"] = len(STATE["visited"])
             try:
-                mod = visit_module(src)
-            except Exception:  # noqa: BLE001
-                mod = None
-            for c in chunk:
-                ctx.evaluations += 1
-                try:
-                    if mod is None:
-                        one = (FUTURE if c["future"] else "") + HEADER + POSITIONS[POS_INDEX[c["pos"]]][1].format(k=c["k"], e=c["src"])
-                        obj = impl_at(visit_module(one), c["pos"], c["k"])
-                    else:
-                        obj = impl_at(mod, c["pos"], c["k"])
-                except Exception as e:  # noqa: BLE001
-                    ctx.property_failure(case_json(c), {"visit raised": type(e).__name__ + ": " + str(e)[:200]})
-                    return
-                ok, detail = direct_eval(obj, c["Eexp"], c["top"])
-                if ok:
-                    continue
-                gaps = py_gaps_top(c["Eexp"], c["top"])
-                fam = pick_family(gaps)
-                if set(detail) <= {"names", "dotted_paths"}:
-                    fam = 10 if 10 in gaps else 3 if 3 in gaps else None
-                if fam is None:
-                    ctx.property_failure(case_json(c), detail)
-                    return
+                if mod is None:
+                    one = module_text(c["future"], c.get("header", 0), stmt_text(c))
+                    obj = impl_at(visit_module(one), c["pos"], c["k"])
+                else:
+                    obj = impl_at(mod, c["pos"], c["k"])
+            except Exception as e:  # noqa: BLE001
+                ctx.property_failure(cj, {"visit raised": type(e).__name__ + ": " + str(e)[:200]})
+                return
+            ok, detail = direct_eval(obj, c["Eexp"], c["top"])
+            if ok:
+                continue
+            gaps = py_gaps_top(c["Eexp"], c["top"])
+            fam = pick_family(gaps)
+            if set(detail) <= {"names", "dotted_paths"}:
+                fam = 10 if 10 in gaps else 3 if 3 in gaps else None
+            if fam is None:
+                ctx.property_failure(cj, detail)
+                return
         if ctx.elapsed() > 900:
             return
 
@@ -1297,7 +1628,16 @@ def replay(ctx, data):
     if "expression" not in case:
         print("replay names no input:", data.get("no_longer_checks"))
         return 0
-    c = {"src": case["expression"], "pos": case["position"], "future": case["future_annotations"], "label": "replay"}
+    c = case_from_json(case)
+    for i, h in enumerate(case.get("history", [])):
+        print(f"# ---- history module {i + 1} (visited first, in this process)")
+        print(h)
+        try:
+            visit_module(h)
+        except Exception as e:  # noqa: BLE001
+            print("griffe.visit raised on the history module:", type(e).__name__, e)
+    if case.get("history_dependent") and not case.get("history"):
+        print("# the failure was seen only after other modules had been visited in the same process; no short history was isolated")
     for src, chunk in build_modules([c]):
         prepare(chunk, src)
         print(src)
@@ -1315,3 +1655,10 @@ def replay(ctx, data):
             out = ctx.model([c["query"]])[0]
             print("model        :", {"build": out[2], "ref": out[3], "gaps": out[4]})
     return 0
+
+
+if __name__ == "__main__":
+    import sys
+    if "--isolated" in sys.argv:
+        ok, detail = eval_with_history(json.loads(sys.stdin.read()))
+        print(json.dumps({"ok": bool(ok), "detail": {k: str(v)[:300] for k, v in detail.items()}}))
